@@ -284,7 +284,7 @@ def run_c07(ctx):
                  merge_cfg([1, 2, 3], 3, 2, ["p0", "p3", "u"], ["a0", "d2"], ["p3", "mix"], ["d2"], k), 14)]
     else:
         jobs = [("merge3", "IndexFileMergeMC", None,
-                 merge_cfg([1, 2, 3], 3, 2, ["p0", "p3", "mix", "v6", "u"], ["a0", "d0", "a2", "d2"], ["p3", "mix"], ["a0", "d2"], k), 10),
+                 merge_cfg([1, 2, 3], 3, 2, ["p0", "p3", "mix", "v6", "u"], ["a0", "d0", "d2"], ["p3", "mix"], ["d2"], k), 10),
                 ("merge2x4", "IndexFileMergeMC", None,
                  merge_cfg([1, 2, 3, 4], 2, 2, ["p0", "p3", "mix", "v6", "u"], ["a0", "d0", "a2", "d2"], ["p3"], ["d2"], k), 6)]
     t0 = time.time()
